@@ -782,11 +782,18 @@ def one_dataset(ctx: Ctx, setup_ops, level: int, meta: dict, tmp: str, tag: str,
         # positions with a `time` attached: the model's writeDSX / readBackX (Model/H5Time.lean), rendered with the attachment
         xline = ("c10 rtx " + units_token() + " " + " | ".join(("q " + " ".join(op_tokens(o))) for o in concrete)
                  + " | X " + " ".join(xtoks) + f" | write 0 {level}")
-        xmodel = ctx.driver.ask1(xline)
+        xanswer = ctx.driver.ask1(xline)
+        xmodel, _, xrest = xanswer.partition("#W:")
         ximpl = f"ok:D0({e.num_obs};[{render_fields_x(e._fields, [])}])"
         ctx.count("time-attribute:through-the-model")
-        if xmodel != ximpl and xmodel != "?":
+        if xmodel != ximpl and xanswer != "?":
             ctx.disagree("write/read of a dataset with the time attribute of positions", case, xmodel, ximpl)
+        if xrest:
+            # the hypothesis of theorem read_write_time (WritableX), evaluated by the model, and an instance of its conclusion
+            wx, _, xrestr = xrest.partition("#R:")
+            ctx.count("WritableX=" + wx)
+            if wx == "T" and xmodel != "ok:" + xrestr:
+                ctx.disagree("instance of theorem read_write_time: WritableX, but model rtx != model restrict", case, xmodel, xrestr)
     if any(v is None for v in meta.values()):
         # a bare None cannot be saved: both sides must refuse (TypeError); nothing more to compare
         if impl != "ERR:w:unsavable":
